@@ -38,4 +38,10 @@ static inline uint64_t spec_f64_bits(double f) { union { double f; uint64_t u; }
 
 #define SPEC_IMPLIES(a, b) (!(a) || (b))
 
+#ifndef SBV_CPROVER
+/* native replay: CBMC primitives used in preconditions */
+#define __CPROVER_overflow_mult(a, b) __builtin_mul_overflow_p((a), (b), (__typeof__((a) * (b)))0)
+#define __CPROVER_overflow_plus(a, b) __builtin_add_overflow_p((a), (b), (__typeof__((a) + (b)))0)
+#endif
+
 #endif
